@@ -24,3 +24,74 @@ package sideband
 //gvc:  ensures taken: len(d.pending) == 0
 //gvc:  ensures same: len(b) == old(len(d.pending))
 //gvc:end
+
+// WithPayload: channel byte followed by the payload.
+//gvc:func Channel.WithPayload
+//gvc:  props C34
+//gvc:  theory int
+//gvc:  ensures length: len(result) == len(payload) + 1
+//gvc:  ensures channel: result[0] == ch
+//gvc:  ensures body: forall(k, 0, len(payload), result[k + 1] == payload[k])
+//gvc:end
+
+// NewMuxer: the payload budget leaves room for the 4-byte length and the
+// channel byte, so no packet exceeds the sideband limit (1000 / 65520).
+//gvc:func NewMuxer
+//gvc:  props C34
+//gvc:  theory int
+//gvc:  ensures budget: result != nil && result.w == w && result.max == ite(t == Sideband, 995, 65515)
+//gvc:end
+
+// doWrite sends one packet: channel byte + at most max payload bytes; the
+// packet on the wire is hex4(sz+5) ch p[0:sz].
+//gvc:func (*Muxer).doWrite
+//gvc:  props C34
+//gvc:  theory int
+//gvc:  results n err
+//gvc:  modifies m.w.#sink
+//gvc:  requires budget: 0 < m.max && m.max <= 65515 && m.w != nil
+//gvc:  let w0 = m.w.#wlen
+//gvc:  ensures chunk: n == min(len(p), m.max)
+//gvc:  ensures wire: err == nil ==> m.w.#wlen == w0 + 5 + n && m.w.#wdata[w0 + 4] == ch
+//gvc:  ensures limit: err == nil ==> m.w.#wlen - w0 <= m.max + 5
+//gvc:end
+
+// WriteChannel: every byte of p is sent, in order, in packets within the limit.
+//gvc:func (*Muxer).WriteChannel
+//gvc:  props C34
+//gvc:  theory int
+//gvc:  results n err
+//gvc:  modifies m.w.#sink
+//gvc:  requires budget: 0 < m.max && m.max <= 65515 && m.w != nil
+//gvc:  loop 1 invariant progress: 0 <= wrote && wrote <= size && size == len(p)
+//gvc:  loop 1 decreases size - wrote
+//gvc:  ensures all: err == nil ==> n == len(p)
+//gvc:  ensures partial: 0 <= n && n <= len(p)
+//gvc:end
+
+// doRead hands out at most len(b) bytes of the next pack-data chunk and keeps
+// the rest pending: nothing is lost or duplicated (conservation).
+//gvc:func (*Demuxer).doRead
+//gvc:  props C34 C53
+//gvc:  theory int
+//gvc:  opt coarse
+//gvc:  opt frame args
+//gvc:  opt safety
+//gvc:  results n err
+//gvc:  ensures bound: 0 <= n && n <= len(b)
+//gvc:  ensures conserved: n == min(len(now(read)), len(b)) && (len(now(read)) > len(b) ==> len(d.pending) == len(now(read)) - len(b))
+//gvc:  ensures pendingcontent: len(now(read)) > len(b) ==> forall(k, 0, len(d.pending), d.pending[k] == now(read)[len(b) + k])
+//gvc:  ensures copied: forall(k, 0, n, b[k] == now(read)[k])
+//gvc:end
+
+//gvc:func (*Demuxer).Read
+//gvc:  props C34 C53
+//gvc:  theory int
+//gvc:  opt coarse
+//gvc:  opt frame args
+//gvc:  opt safety
+//gvc:  results read err
+//gvc:  loop 1 invariant range: 0 <= read && read <= req && req == len(b)
+//gvc:  ensures bound: 0 <= read && read <= len(b)
+//gvc:  ensures full: err == nil ==> read == len(b)
+//gvc:end
